@@ -33,7 +33,11 @@ def compound(I, entries):
     for u, p, f in entries:
         uv = unit_val(I, u)
         i, found = map_find(I, m, uv)
-        if found: raise ValueError('duplicate unit ' + u)
+        if found:
+            # two entries the key type's own Ord calls equal: as Compound::from_iter / BTreeMap::insert do, the later state
+            # replaces the earlier one under the earlier key (only a harness error if the SAME unit was listed twice)
+            if [e[0] for e in entries].count(u) > 1: raise ValueError('duplicate unit ' + u)
+            m.entries[i][1] = Cell(state(p, f)); continue
         m.entries.insert(i, [uv, Cell(state(p, f))])
     return VStruct('compound::Compound', [m])
 def numeric(v, unit): return VStruct('numeric::Numeric', [rational(v) if not isinstance(v, VStruct) else v, unit])
